@@ -7,5 +7,6 @@ CONSTANTS
   DEV_OwnerImportTwice = FALSE
   DEV_OwnerNaming = TRUE
   DEV_WorldMerge = TRUE
+  DEV_SharedRemap = TRUE
 INVARIANTS FailsExactly MatchesContract MatchesByKey OneImportPerKey UniqueNames Canonical Satisfies Idempotent EmitReplay
 CHECK_DEADLOCK FALSE
